@@ -54,6 +54,29 @@ claim('C03', 'proof',
       'Lean 4 proof (refinement between two semantic levels) + correspondence on row provenance',
       'DESIGN.md section 5 C03')
 
+claim('C05', 'proof',
+      'Lean 4 theorems C05_* : the rows of shift_episodes\' two outputs, zipped, are exactly - per label in '
+      'ascending order - the consecutive (row k, state of row k+1) pairs of that episode (trainPairs_eq); count, '
+      'alignment, no inputs on the shifted side, relabel/reorder invariance up to a permutation of blocks. '
+      'Correspondence: a recording KoopmanRegressor captures the exact arguments of _fit_regressor (bare and at the '
+      'end of random pipelines) and they are compared verbatim with the model on tagged integers.',
+      'Lean kernel + standard axioms; that each regressor\'s coef_ is a function of the multiset of pairs only '
+      '(Gram sums) is checked by the oracle (fit(X) vs fit(Xu,Xs) vs relabelled X), not proved here (C06 proves the '
+      'normal-equation part).',
+      'Lean 4 proof (list algebra over the episode routing lemmas) + recording-regressor correspondence',
+      'DESIGN.md section 5 C05')
+claim('C16', 'proof',
+      'Lean 4 theorems C16_* about the executable model of the six helpers on raw matrices (label column present iff '
+      'the call has one): None = fit-time value; same flag = transform; fitted-with/called-without = transform of the '
+      'zero-label-padded data; fitted-without/called-with = per-episode transform (episodeOf_route); the *_state / '
+      '*_input helpers are the declared column blocks. Correspondence: all 2 x 3 x 6 helper/flag combinations on '
+      'tagged integers through random pipelines with delays, compared exactly.',
+      'Lean kernel + standard axioms; the theorems describe the repaired code (fix: 34ad5d9); retract_state/'
+      'retract_input inverting lift_state/lift_input on the trailing samples is checked by the oracle on the '
+      'implementation and follows from C01+C02 in the model only informally (not yet a Lean theorem).',
+      'Lean 4 proof + exhaustive flag-matrix correspondence',
+      'DESIGN.md section 5 C16')
+
 ALL = [f'C{i:02d}' for i in range(1, 21)]
 
 
